@@ -7,6 +7,7 @@ using namespace vf;
 
 static const int32_t kDefault = -7;
 static uint64_t g_ambiguous = 0;
+static bool g_compoundSeen = false;
 
 static std::string checkPair(const std::string &pattern, const std::string &header, bool live, bool *accepted = nullptr, const RefPattern *pre = nullptr) {
     RefPattern rp0;
@@ -54,6 +55,21 @@ static std::string checkPair(const std::string &pattern, const std::string &head
         if (l.compare(0, 2, "I:") == 0) { sawI = true; if (l.compare(0, 4, "I:1:") != 0) return "SCPI_IsCmd(effective header) is FALSE inside the handler" + ctxs; }
     }
     if (!sawI || !sawN) return "handler trace incomplete" + ctxs;
+    // the same header reached as a later unit of a compound message, written in relative form (last keyword only): the
+    // effective header is composed from the path of the preceding unit and must be matched - and its suffixes reported -
+    // exactly like the header written out in full
+    size_t lastColon = header.rfind(':');
+    if (lastColon != std::string::npos && lastColon > 0 && header[0] != '*') {
+        InstCfg k2 = k; k2.bufLen = 2 * header.size() + 8;
+        Inst J(k2);
+        J.input(header + ";" + header.substr(lastColon + 1) + "\n");
+        if (!J.invariant.empty()) return J.invariant + ctxs;
+        if (J.handlerCalls != 2) return fmt("'<header>;<last keyword>' ran the handler %d times, expected 2 (the relative form composes to the same header)", J.handlerCalls) + ctxs;
+        int seenN = 0;
+        for (auto &l : J.trace) if (l.compare(0, 2, "N:") == 0) { seenN++; if (l != expN) return fmt("SCPI_CommandNumbers in unit %d of '<header>;<last keyword>' gave ", seenN) + l + ", expected " + expN + ctxs; }
+        if (nn > 0 && seenN != 2) return "handler trace of the compound message incomplete" + ctxs;
+        g_compoundSeen = true;
+    }
     return "";
 }
 
@@ -208,7 +224,9 @@ static std::string body(Src &s, Ev &ev) {
     else if (mode == 1) { pattern = kShipped[s.range(0, (uint64_t) kNShipped - 1)]; header = spell(s, refParsePattern(pattern), mutated); }
     else { pattern = kShipped[s.range(0, (uint64_t) kNShipped - 1)]; header = spell(s, refParsePattern(kShipped[s.range(0, (uint64_t) kNShipped - 1)]), mutated); mutated = true; }
     bool acc = false;
+    g_compoundSeen = false;
     std::string m = checkPair(pattern, header, true, &acc);
+    if (g_compoundSeen) ev.label("live-compound-relative-form");
     ev.eval();
     bool special = pattern.find('[') != std::string::npos || pattern.find('#') != std::string::npos;
     ev.label(std::string(mode == 0 ? "random-pattern" : mode == 1 ? "shipped-pattern" : "shipped-cross") + (acc ? "-accepted" : "-rejected"));
